@@ -9,9 +9,29 @@ EXTENDS Server, Uri, Json, IOUtils
 
 TraceLog == ndJsonDeserialize(IOEnv.TRACE)
 OutFile  == IOEnv.OUT
-VARIABLES l, rej, cur, skip, tb, req, mcast, hs, rs, nreq, nmulti
-vars == <<l, rej, cur, skip, tb, req, mcast, hs, rs, nreq, nmulti>>
+VARIABLES l, rej, cur, skip, tb, req, mcast, hs, rs, nreq, nmulti,
+          peer,      \* who sent the request under judgement
+          pend,      \* deferred answers: [peer, tok, ty, res, rel] - the handler registered an async entry and set nothing; rel: released (the
+                     \* application triggered it, or it is timed)
+          dfr,       \* entries for which the handler has run to give the deferred answer and whose answer has not reached the peer yet (a Confirmable
+                     \* answer may be held behind another one: NSTART)
+          ndef,      \* deferred answers judged
+          isrep      \* the request under judgement repeats one whose answer was pending when it arrived
+vars == <<l, rej, cur, skip, tb, req, mcast, hs, rs, nreq, nmulti, peer, pend, dfr, ndef, isrep>>
+AllVars == <<rej, cur, skip, tb, req, mcast, hs, rs, nreq, nmulti, peer, pend, dfr, ndef, isrep>>
 
+Reject(why, n) == Append(rej, [id |-> cur, line |-> l, why |-> why, n |-> n])
+\* the datagram that follows a handler run for a deferred answer x
+DeferredWhy(x, w) ==
+  LET d == DecUDP(w) IN
+  IF d.ok # "ok" THEN "C10:reply-is-malformed"
+  ELSE IF d.m.ty \in {ACK, RST} THEN "C10:deferred-answer-sent-as-acknowledgement-or-reset"       \* the request was acknowledged when it was deferred; a NON is never ACKed
+  ELSE IF d.m.tok # x.tok THEN "C10:reply-does-not-echo-the-token"
+  ELSE IF d.m.code # 69 THEN "C10:deferred-answer-is-not-what-the-handler-set"
+  ELSE ""
+\* a datagram that reaches a peer is the deferred answer of an entry whose handler has run: a response (not an acknowledgement) under that token
+IsDeferredAnswer(e) ==
+  dfr # {} /\ LET d == DecUDP(e.w) IN d.ok = "ok" /\ d.m.code >= 64 /\ d.m.ty \in {CON, NON} /\ \E y \in dfr : y.peer = e.peer /\ y.tok = d.m.tok
 TableOf(e) == [res |-> e.res, unknown |-> e.unknown, proxy |-> e.proxy, known |-> {e.known[i] : i \in 1..Len(e.known)}]
 
 ReplyKind(m, r) ==   \* classify an emitted datagram r (decoded) relative to request m
@@ -48,7 +68,10 @@ Judge ==
   LET d == DecUDP(req) IN
   IF d.ok # "ok" THEN "-"                       \* not a well-formed request: C02/C03 territory
   ELSE LET m == d.m
-           D == Decide(m, tb, mcast)
+           \* a request that repeats one whose answer is deferred (same peer, same token): libcoap only acknowledges it again; handing it to the
+           \* handler once more (which then defers again) is what the statement says of any request datagram - both are accepted
+           rep == isrep
+           D == Decide(m, tb, mcast) \cup (IF rep THEN Outs(<< >>, Sent(m, 0, mcast)) ELSE {})
        IN IF D = {} THEN "-"
           ELSE IF Len(rs) > 1 THEN "C10:more-than-one-reply-to-one-request-datagram"
           ELSE IF Len(hs) > 1 THEN "C10:handler-ran-more-than-once"
@@ -66,31 +89,70 @@ Judge ==
 
 Init == /\ l = 1 /\ rej = << >> /\ cur = -1 /\ skip = TRUE /\ tb = [res |-> << >>, unknown |-> [present |-> FALSE], proxy |-> FALSE, known |-> {}]
         /\ req = << >> /\ mcast = FALSE /\ hs = << >> /\ rs = << >> /\ nreq = 0 /\ nmulti = 0
+        /\ peer = 0 /\ pend = {} /\ dfr = {} /\ ndef = 0 /\ isrep = FALSE
 
 Consume ==
   /\ l <= Len(TraceLog)
   /\ LET e == TraceLog[l] IN
      CASE e.e = "Reset" -> /\ cur' = e.id /\ skip' = FALSE /\ tb' = TableOf(e) /\ req' = << >> /\ hs' = << >> /\ rs' = << >>
-                           /\ UNCHANGED <<rej, mcast, nreq, nmulti>>
-       [] e.e = "Inject" /\ ~skip -> /\ req' = e.w /\ mcast' = e.mcast /\ hs' = << >> /\ rs' = << >>
-                                    /\ UNCHANGED <<rej, cur, skip, tb, nreq, nmulti>>
-       [] e.e = "Handler" /\ ~skip -> hs' = Append(hs, e) /\ UNCHANGED <<rej, cur, skip, tb, req, mcast, rs, nreq, nmulti>>
-       [] e.e = "Reply" /\ ~skip -> rs' = Append(rs, e.w) /\ UNCHANGED <<rej, cur, skip, tb, req, mcast, hs, nreq, nmulti>>
+                           /\ pend' = {} /\ dfr' = {} /\ peer' = 0
+                           /\ UNCHANGED <<rej, mcast, nreq, nmulti, ndef, isrep>>
+       [] e.e = "Inject" /\ ~skip -> /\ req' = e.w /\ mcast' = e.mcast /\ hs' = << >> /\ rs' = << >> /\ peer' = e.peer
+                                    /\ isrep' = (pend # {} /\ LET d == DecUDP(e.w) IN d.ok = "ok" /\ \E x \in pend : x.peer = e.peer /\ x.tok = d.m.tok)
+                                    /\ UNCHANGED <<rej, cur, skip, tb, nreq, nmulti, pend, dfr, ndef>>
+       [] e.e = "Handler" /\ ~skip /\ ~e.again -> hs' = Append(hs, e) /\ UNCHANGED <<rej, cur, skip, tb, req, mcast, rs, nreq, nmulti, peer, pend, dfr, ndef, isrep>>
+       [] e.e = "Handler" /\ ~skip /\ e.again ->
+            \* the handler is called for an answer it deferred earlier: only after the entry was released, and once
+            LET X == {x \in pend : x.tok = e.tok /\ x.res = e.res} IN
+            IF X = {} THEN /\ rej' = Reject("C10:handler-ran-for-a-deferred-answer-nobody-is-waiting-for", -1) /\ skip' = TRUE
+                           /\ UNCHANGED <<cur, tb, req, mcast, hs, rs, nreq, nmulti, peer, pend, dfr, ndef, isrep>>
+            ELSE LET x == CHOOSE y \in X : TRUE IN
+                 IF ~x.rel THEN /\ rej' = Reject("C10:handler-ran-for-a-deferred-answer-before-the-application-released-it", -1) /\ skip' = TRUE
+                                /\ UNCHANGED <<cur, tb, req, mcast, hs, rs, nreq, nmulti, peer, pend, dfr, ndef, isrep>>
+                 ELSE /\ dfr' = dfr \cup {x} /\ pend' = pend \ {x}
+                      /\ UNCHANGED <<rej, cur, skip, tb, req, mcast, hs, rs, nreq, nmulti, peer, ndef, isrep>>
+       [] e.e = "Reply" /\ ~skip /\ IsDeferredAnswer(e) ->
+            LET x == CHOOSE y \in dfr : y.peer = e.peer /\ y.tok = DecUDP(e.w).m.tok
+                w == DeferredWhy(x, e.w) IN
+            /\ rej' = IF w = "" THEN rej ELSE Reject(w, -1)
+            /\ skip' = (w # "") /\ dfr' = dfr \ {x} /\ ndef' = ndef + 1
+            /\ UNCHANGED <<cur, tb, req, mcast, hs, rs, nreq, nmulti, peer, pend, isrep>>
+       [] e.e = "Reply" /\ ~skip /\ ~IsDeferredAnswer(e) ->
+            \* a separate Confirmable response that is retransmitted is not another reply (the scripted peer acknowledges; none is expected)
+            rs' = Append(rs, e.w) /\ UNCHANGED <<rej, cur, skip, tb, req, mcast, hs, nreq, nmulti, peer, pend, dfr, ndef, isrep>>
        [] e.e = "Done" /\ ~skip ->
-            LET w == Judge IN
-            /\ rej' = IF w \in {"", "-"} THEN rej ELSE Append(rej, [id |-> cur, line |-> l, why |-> w, n |-> e.n])
+            LET w == Judge
+                d == DecUDP(req)
+                \* the handler of a deferring resource ran and set nothing: an answer is owed from now on
+                defers == w = "" /\ d.ok = "ok" /\ hs # << >> /\ hs[1].res >= 1 /\ hs[1].res <= Len(tb.res) /\ tb.res[hs[1].res].defer
+            IN
+            /\ rej' = IF w \in {"", "-"} THEN rej ELSE Reject(w, e.n)
             /\ nreq' = IF w = "-" THEN nreq ELSE nreq + 1
             /\ nmulti' = IF w # "-" /\ Cardinality(Decide(DecUDP(req).m, tb, mcast)) > 1 THEN nmulti + 1 ELSE nmulti
-            /\ UNCHANGED <<cur, skip, tb, req, mcast, hs, rs>>
+            /\ pend' = IF defers THEN pend \cup {[peer |-> peer, tok |-> d.m.tok, ty |-> d.m.ty, res |-> hs[1].res,
+                                                   rel |-> (tb.res[hs[1].res].segs # << <<119>> >>)]}     \* "w" waits for the application, "v" is timed
+                        ELSE pend
+            /\ UNCHANGED <<cur, skip, tb, req, mcast, hs, rs, peer, dfr, ndef, isrep>>
+       [] e.e = "Trigger" /\ ~skip -> /\ pend' = {[x EXCEPT !.rel = TRUE] : x \in pend} /\ hs' = << >> /\ rs' = << >> /\ req' = << >>
+                                     /\ UNCHANGED <<rej, cur, skip, tb, mcast, nreq, nmulti, peer, dfr, ndef, isrep>>
+       [] e.e \in {"TDone", "WDone"} /\ ~skip ->
+            \* everything released (and, after a wait of 3 s or more, everything timed) has been answered; nothing else was sent
+            LET owed == IF e.e = "WDone" /\ e.ms < 4000 THEN {}
+                        ELSE {x \in pend : x.rel /\ (e.e = "TDone" => tb.res[x.res].segs = << <<119>> >>)} IN
+            /\ rej' = IF dfr # {} \/ owed # {} THEN Reject("C10:deferred-answer-not-sent", -1)
+                       ELSE IF rs # << >> THEN Reject("C10:datagram-nobody-asked-for", -1) ELSE rej
+            /\ skip' = (dfr # {} \/ owed # {} \/ rs # << >>)
+            /\ UNCHANGED <<cur, tb, req, mcast, hs, rs, nreq, nmulti, peer, pend, dfr, ndef, isrep>>
+       [] e.e = "Wait" /\ ~skip -> /\ hs' = << >> /\ rs' = << >> /\ req' = << >> /\ UNCHANGED <<rej, cur, skip, tb, mcast, nreq, nmulti, peer, pend, dfr, ndef, isrep>>
        [] e.e = "Crash" -> /\ rej' = Append(rej, [id |-> cur, line |-> l, why |-> "C10:driver-crashed", n |-> -1]) /\ skip' = TRUE
-                           /\ UNCHANGED <<cur, tb, req, mcast, hs, rs, nreq, nmulti>>
-       [] OTHER -> UNCHANGED <<rej, cur, skip, tb, req, mcast, hs, rs, nreq, nmulti>>
+                           /\ UNCHANGED <<cur, tb, req, mcast, hs, rs, nreq, nmulti, peer, pend, dfr, ndef, isrep>>
+       [] OTHER -> UNCHANGED AllVars
   /\ l' = l + 1
 Finish ==
   /\ l = Len(TraceLog) + 1
   /\ JsonSerialize(OutFile, [rejected |-> rej, executions |-> nreq, discarded |-> 0, known |-> {}, lines |-> Len(TraceLog),
-                             requests_with_several_allowed_outcomes |-> nmulti])
-  /\ l' = l + 1 /\ UNCHANGED <<rej, cur, skip, tb, req, mcast, hs, rs, nreq, nmulti>>
+                             requests_with_several_allowed_outcomes |-> nmulti, deferred_answers |-> ndef])
+  /\ l' = l + 1 /\ UNCHANGED AllVars
 Next == Consume \/ Finish
 Spec == Init /\ [][Next]_vars
 =============================================================================
